@@ -179,17 +179,26 @@ def build6(m):
     m.optional_fields |= {('Fragment', 'wordwrap'), ('Fragment', 'hard_line_break')}
     m.class_attrs[('MarkdownRenderer', '_whitespace')] = ('const', mk_obj('pattern', 'MarkdownRenderer._whitespace'))
     m.add(Contract('re:MarkdownRenderer._whitespace.split', [('s', STR)], returns=TList(STR), trusted=True, pure=True,
-                   ensures=['len(result) >= 1'],
+                   ensures=['len(result) >= 1', "forall(lambda i: result[i] != '\\n', 0, len(result))"],
                    note=r'A5: re.split(r"\s+", s) returns at least one piece'))
     # Fragment protocol (render_line_break): a hard line break carries its marker ("\\" or two blanks) and "\n"
     HARD = ("forall(lambda i: implies(field(fragments[i], '__has_hard_line_break') and fragments[i].hard_line_break "
-            "and not (field(fragments[i], '__has_wordwrap') and fragments[i].wordwrap), len(fragments[i].text) >= 2), 0, len(fragments))")
+            "and not (field(fragments[i], '__has_wordwrap') and fragments[i].wordwrap), len(fragments[i].text) >= 2 "
+            "and fragments[i].text[:-1] != '\\n'), 0, len(fragments))")
+    # ... and only a hard line break is the text "\n" (code spans, raw HTML and text never are a bare newline)
+    NOTNL = ("forall(lambda i: implies(not (field(fragments[i], '__has_hard_line_break') and fragments[i].hard_line_break), "
+             "fragments[i].text != '\\n'), 0, len(fragments))")
     m.add(Contract(MOD + ':MarkdownRenderer.make_words', [('cls', cls_t('MarkdownRenderer')), ('fragments', TList(FR))],
-                   returns=None, requires=[HARD],
+                   returns=None, requires=[HARD, NOTNL],
                    yield_type=STR,
-                   yield_asserts=[('len(yielded) >= 1', 'C10')],
+                   yield_asserts=[('len(yielded) >= 1', 'C10'),
+                                  # C10 (meaning preserved): the word "\n" is a hard line break, and it is always preceded
+                                  # by a word that ends with the break's marker (backslash or the two blanks) - the marker
+                                  # is never dropped, whatever stood before it
+                                  ("implies(yielded == '\\n', ghost('__last_yield__').endswith(fragment.text[:-1]) and "
+                                   "len(fragment.text) >= 2 and field(fragment, '__has_hard_line_break') and fragment.hard_line_break)", 'C10')],
                    body_types={'word': STR},
-                   loops={0: Loop(invariant=[]), 1: Loop(invariant=[])},
+                   loops={0: Loop(invariant=["word != '\\n'", "implies(_k0 == 0, word == '')"]), 1: Loop(invariant=["word != '\\n'"])},
                    prop=['C10']))
     m.add(Contract(MOD + ':MarkdownRenderer.prefix_lines#width',
                    [('cls', cls_t('MarkdownRenderer')), ('lines', TList(STR)), ('first_line_prefix', STR),
@@ -253,5 +262,7 @@ def build8(m):
                         "yielded == '' or yielded.startswith(' ' * token.indentation)", ['C09', 'C10'])],
                    call_asserts={MOD + ':MarkdownRenderer.prefix_lines#lines': [
                        # the content lines get the fence's indentation as their prefix - nothing else is done to them
-                       ("arg_first_line_prefix == ' ' * token.indentation and is_none(arg_following_line_prefix)", ['C09', 'C10'])]},
+                       ("arg_first_line_prefix == ' ' * token.indentation and is_none(arg_following_line_prefix)", ['C09', 'C10']),
+                       # ... to exactly the lines of the code: the content without its final newline, cut at LF only
+                       ("same(arg_lines, token.content[:-1].split('\\n'))", ['C09', 'C10'])]},
                    prop=['C09', 'C10']))
